@@ -116,6 +116,9 @@ pub struct Plan {
     pub stuck: BTreeSet<(u32, u32)>,
     /// F-waker (async kinds): every poll of a task is given a fresh waker and wake-ups through older wakers are ignored
     pub fresh_wakers: bool,
+    /// F-ready (async kinds): per-mille of the gate futures that complete in their very first poll
+    pub ready_pm: u32,
+    pub ready_seed: u64,
 }
 
 impl Default for Plan {
@@ -133,6 +136,8 @@ impl Default for Plan {
             cancel_at: None,
             stuck: BTreeSet::new(),
             fresh_wakers: false,
+            ready_pm: 0,
+            ready_seed: 0,
         }
     }
 }
@@ -187,6 +192,8 @@ impl Global {
                 cancel_at: None,
                 stuck: BTreeSet::new(),
                 fresh_wakers: false,
+                ready_pm: 0,
+                ready_seed: 0,
             },
             log: Vec::new(),
             occ: BTreeMap::new(),
